@@ -25,6 +25,7 @@ def step (d : DState) (line : String) : DState × String :=
   | "val" :: args => (d, valStep args)
   | "cmp" :: args => (d, cmpStep args)
   | "sem" :: args => (d, semStep args)
+  | "nat" :: args => (d, natStep args)
   | "trc" :: args => (d, trcStep d.vm args)
   | "mod" :: args => let (s, o) := modStep d.mod args; ({ d with mod := s }, o)
   | "vm" :: args => let (s, o) := vmStep d.vm args; ({ d with vm := s }, o)
